@@ -4,6 +4,7 @@ package c01
 import (
 	"bytes"
 	stded "crypto/ed25519"
+	"encoding/binary"
 	"fmt"
 	"math/big"
 	"sync"
@@ -22,14 +23,14 @@ func init() {
 		Builds:              []string{"default", "386"}, // the 386 build runs 1/12 of the random classes on a 32-bit target
 		Scale386:            12,
 		Parallel:            4, // cases are judged on 4 goroutines per shard: the library functions are stateless, shared state inside them shows up as wrong verdicts
-		Rule: "(public key, message, signature) triples in classes: honest (crypto/ed25519 signatures, message length 0..2500 and around 2^9..2^13), bitflip (1-2 flipped bits), s_plus_jL (S+jL for every j with S+jL < 2^256), torsion (A=[s]B+T, R=[r]B+T' for all 8x8 torsion pairs, S=r+k*s with k over the bytes as given, and the same with S perturbed), smallorder (every encoding of every small-order point incl. non-canonical ones as A and as R, with S=0, S=k*s, S=jL, S=1), noncanonical_y (all 38 encodings with y>=p), s_high (canonical S in the sliver [2^252, L), built from a small-order A and R=[S]B+T', with structured limbs, and S just at/above L), s_limbs (S over the whole 256-bit range built from 64/32/16/8-bit chunks that are 0, 1, all-ones, half-range, the order's chunk, next to it, or the order's chunk plus half the range; small-order A and R=[S mod L]B+T', so that S<L alone decides), r_related_to_key (R == A, the honest signature with nonce r = a; R == -A; R == A+T; with the S that satisfies the equation and the one with the sign of r flipped), identity_r (the neutral element in every encoding as R under an honest key, with S = k*a, random S, S in {0,1,2}), undecodable A/R, length (signature lengths 0..70 and 64+256, 64+512, 64+65536), random, concurrent (8 goroutines verify their own message/signature pairs, valid and not, under one key, all passing the same PublicKey slice; expectations from the model), and sequence (2..6 consecutive calls on the related keys A and -A, which differ in the sign bit only, with signatures of either, torsion-shifted keys and undecodable R in between: every verdict must equal the predicate of that call alone; the inputs of a sequence are passed in buffers that are overwritten in place between the calls, and some steps first call Sign with a well-formed or a mismatched (seed of one key, public half of another) private key and verify the result). " +
+		Rule: "(public key, message, signature) triples in classes: honest (crypto/ed25519 signatures, message length 0..2500 and around 2^9..2^13), bitflip (1-2 flipped bits), s_plus_jL (S+jL for every j with S+jL < 2^256), torsion (A=[s]B+T, R=[r]B+T' for all 8x8 torsion pairs, S=r+k*s with k over the bytes as given, and the same with S perturbed), smallorder (every encoding of every small-order point incl. non-canonical ones as A and as R, with S=0, S=k*s, S=jL, S=1), noncanonical_y (all 38 encodings with y>=p), s_high (canonical S in the sliver [2^252, L), built from a small-order A and R=[S]B+T', with structured limbs, and S just at/above L), s_limbs (S over the whole 256-bit range built from 64/32/16/8-bit chunks that are 0, 1, all-ones, half-range, the order's chunk, next to it, or the order's chunk plus half the range; small-order A and R=[S mod L]B+T', so that S<L alone decides), r_related_to_key (R == A, the honest signature with nonce r = a; R == -A; R == A+T; with the S that satisfies the equation and the one with the sign of r flipped), rare_encoding (honest keys — thorough: also nonce points — whose canonical encoding has the 15 upper bits of y all set or all clear, or the two lowest bytes 0x0000 / 0xffff, found by grinding 2^21 (2^24) seeds with crypto/ed25519), identity_r (the neutral element in every encoding as R under an honest key, with S = k*a, random S, S in {0,1,2}), undecodable A/R, length (signature lengths 0..70 and 64+256, 64+512, 64+65536), random, concurrent (8 goroutines verify their own message/signature pairs, valid and not, under one key, all passing the same PublicKey slice; expectations from the model), and sequence (2..6 consecutive calls on the related keys A and -A, which differ in the sign bit only, with signatures of either, torsion-shifted keys and undecodable R in between: every verdict must equal the predicate of that call alone; the inputs of a sequence are passed in buffers that are overwritten in place between the calls, and some steps first call Sign with a well-formed or a mismatched (seed of one key, public half of another) private key and verify the result). " +
 			"Every Verify call is judged two-sidedly against the big-integer ZIP-215 model and one-sidedly against crypto/ed25519 (std accept => accept). Non-trivial: every distinct triple outside class random.",
 		Assumptions: []string{"SHA-512 of the Go standard library", "math/big", "the ZIP-215 model in harness/oracle/ed (self-tested against RFC 8032 vectors, crypto/ed25519 and the known small-order encodings)"},
 		SelfTest:    ed.SelfTest,
 		Gen:         gen,
 		Judge:       judge,
 		Render:      render,
-		Required:    []string{"r_related_to_key model=accept", "r_related_to_key model=reject", "identity_r model=accept", "identity_r model=reject", "concurrent executions on one shared key slice", "s_limbs model=accept", "s_limbs model=reject", "s_high model=accept", "s_high model=reject", "sequence: sign-then-verify steps", "model=accept impl=accept", "model=reject impl=reject", "std=accept", "sequence step model=accept", "sequence step model=reject"},
+		Required:    []string{"rare_encoding model=accept", "r_related_to_key model=accept", "r_related_to_key model=reject", "identity_r model=accept", "identity_r model=reject", "concurrent executions on one shared key slice", "s_limbs model=accept", "s_limbs model=reject", "s_high model=accept", "s_high model=reject", "sequence: sign-then-verify steps", "model=accept impl=accept", "model=reject impl=reject", "std=accept", "sequence step model=accept", "sequence step model=reject"},
 	})
 }
 
@@ -523,6 +524,40 @@ func gen(g *fw.Gen) {
 		sk := stded.NewKeyFromSeed(g.Bytes(32))
 		msg := randMsg(g)
 		emit(g, "honest", []byte(sk[32:]), msg, stded.Sign(sk, msg))
+	}
+
+	// honest keys and nonce points whose canonical encodings have rare byte patterns (the 15 upper bits of y all
+	// set — y just below 2^255, where a hand-written "y >= p" test must look at all the bytes —, all clear,
+	// the two lowest bytes 0x0000 or 0xffff): found by grinding seeds / messages with crypto/ed25519, about one
+	// in 2^14. The key pattern is ground in both tiers, the R pattern in the thorough tier.
+	rare := func(e []byte) bool {
+		return (e[31]&0x7f == 0x7f && e[30] == 0xff) || (e[31]&0x7f == 0 && e[30] == 0) || (e[0] == 0 && e[1] == 0) || (e[0] == 0xff && e[1] == 0xff)
+	}
+	{
+		seed := g.Bytes(32)
+		for n, hits := g.ShareOf(1<<21, 1<<24), 0; n > 0 && hits < 64; n-- {
+			binary.LittleEndian.PutUint64(seed[8:], uint64(n))
+			sk := stded.NewKeyFromSeed(seed)
+			if !rare(sk[32:]) {
+				continue
+			}
+			hits++
+			msg := randMsg(g)
+			emit(g, "rare_encoding", []byte(sk[32:]), msg, stded.Sign(sk, msg))
+		}
+		if !g.Quick() {
+			sk := stded.NewKeyFromSeed(g.Bytes(32))
+			msg := g.Bytes(24)
+			for n, hits := g.ShareOf(0, 1<<22), 0; n > 0 && hits < 32; n-- {
+				binary.LittleEndian.PutUint64(msg[8:], uint64(n))
+				sig := stded.Sign(sk, msg)
+				if !rare(sig[:32]) {
+					continue
+				}
+				hits++
+				emit(g, "rare_encoding", []byte(sk[32:]), msg, sig)
+			}
+		}
 	}
 
 	// sequences of calls on related keys (A, -A, A+T, undecodable in between): the verdict of a call
